@@ -106,7 +106,10 @@ def main(argv):
                 for line in open(a):
                     nm, _, rest = line.partition(' ')
                     if rest.startswith('{') and os.path.isdir(os.path.join(SEEDED, nm)):
-                        allres[nm] = json.loads(rest)
+                        row_ = json.loads(rest)
+                        if row_.get('tests_pass') is None and allres.get(nm, {}).get('tests_pass') is not None:
+                            row_['tests_pass'] = allres[nm]['tests_pass']
+                        allres[nm] = row_
         for k_, row_ in results.items():
             if 'tests_pass' not in row_ and 'tests_pass' in allres.get(k_, {}):
                 row_['tests_pass'] = allres[k_]['tests_pass']    # the suite verdict of an earlier --tests run stays valid for the same patch
